@@ -822,13 +822,23 @@ def check_move(tr, mv):
         return
     if mv.get('ret') is False:
         tr.cnt['c18_refused_moves'] += 1
-        if mv['hot_free0'] != mv['hot_free1'] or mv['cold_free0'] != mv['cold_free1'] or \
-                sorted(mv['hot_stored0']) != sorted(mv['hot_stored1']) or \
-                sorted(mv['cold_stored0']) != sorted(mv['cold_stored1']) or \
-                mv.get('hot_transfer1') or mv.get('cold_transfer1'):
+        caps = mv['hot_free0'] == mv['hot_free1'] and mv['cold_free0'] == mv['cold_free1']
+        lists = sorted(mv['hot_stored0']) == sorted(mv['hot_stored1']) and \
+            sorted(mv['cold_stored0']) == sorted(mv['cold_stored1'])
+        slots = mv.get('hot_transfer0') == mv.get('hot_transfer1') and \
+            mv.get('cold_transfer0') == mv.get('cold_transfer1')
+        if not (caps and lists and slots):
+            others = [m for m in tr.moves if m is not mv and m.get('t_enter') is not None and
+                      m['t_enter'] <= mv['t_enter'] and
+                      (m.get('t_exit') is None or m['t_exit'] >= mv['t_enter'])]
             tr.violate('C18', 'refused_move_changed_state', direction=mv['direction'],
                        before=[mv['hot_free0'], mv['cold_free0']],
-                       after=[mv['hot_free1'], mv['cold_free1']])
+                       after=[mv['hot_free1'], mv['cold_free1']],
+                       capacities_unchanged=caps, lists_unchanged=lists,
+                       transfer_markers_unchanged=slots,
+                       concurrent_move_in_flight=bool(others),
+                       markers=[mv.get('hot_transfer0'), mv.get('cold_transfer0'),
+                                mv.get('hot_transfer1'), mv.get('cold_transfer1')])
         return
     size = mv.get('size')
     rate = min(mv['hot_rate'], mv['cold_rate'])
